@@ -62,7 +62,7 @@ def owned_chain_rows(rng):
     """Chains of thin decks, each *seen by a subset of the ceilometers only* (with a small per-ceilometer height
     offset), under EXCLUDE_FOR_BASE_HEIGHT_CALC: a deck seen by excluded instruments only falls back to all its
     hits; once merged with a deck that has enough other hits the fall-back no longer applies and the base moves."""
-    names = ['a', 'b', 'c', 'd'][:rng.choice([2, 2, 3, 3, 4])]
+    names = rng.choice([['a', 'b', 'c', 'd'], ['1', '10', '11', '2'], ['CL', 'CL3', 'CL31', 'X'], ['b', 'a', 'ab', 'aa']])[:rng.choice([2, 2, 3, 3, 4])]
     n_steps = rng.choice([12, 20, 30])
     S = rng.choice([250, 500, 100])
     base = rng.choice([400, 1000, 3000, 9000])
@@ -104,6 +104,23 @@ def owned_chain_rows(rng):
         prms['BASE_LVL_HEIGHT_PERC'] = rng.choice([0, 5, 50, 95, 100])
     if rng.random() < 0.3:
         prms['BASE_LVL_LOOKBACK_PERC'] = rng.choice([10, 40, 70])
+    if rng.random() < 0.3:
+        # an MSA above all decks with higher-type hits far above it (rows dropped at construction: gaps in the labels)
+        top = max(h for _, _, h, _ in rows if h == h)
+        rows2 = []
+        for (c, dt, h, t) in rows:
+            rows2.append((c, dt, h, t))
+        for ci, c in enumerate(names):
+            for s_ in range(0, n_steps, 3):
+                dt = -(n_steps - s_) * 15.0
+                same = [r for r in rows2 if r[0] == c and abs(r[1] - dt) < 16 and r[3] >= 1]
+                if same:
+                    dt0 = same[0][1]
+                    k_ = max(r[3] for r in rows2 if r[0] == c and r[1] == dt0)
+                    rows2.append((c, dt0, top + 9000.0 + ci, k_ + 1))
+        rows = rows2
+        prms['MSA'] = float(top + 2000)
+        prms['MSA_HIT_BUFFER'] = rng.choice([0, 1500])
     order = rng.choice(['asc', 'asc', 'desc', 'shuffled'])
     if order == 'desc':
         rows = rows[::-1]
@@ -233,6 +250,9 @@ def crop_rows(rng):
             for k, h in enumerate(hs):
                 rows.append((c, t, h, k + 1))
     prms = {'MSA': msa, 'MSA_HIT_BUFFER': buf, 'MAX_HITS_OKTA0': rng.choice([0, 1, 3, 5])}
+    if len({r[0] for r in rows}) > 1 and rng.random() < 0.35:
+        # one instrument excluded from the base heights
+        prms['EXCLUDE_FOR_BASE_HEIGHT_CALC'] = [rng.choice(['0', '1'])]
     return rows, prms
 
 
@@ -372,7 +392,7 @@ def _work(args):
     # one scene in three goes through the package's entry point `ampycloud.run` instead of the stage methods
     rr = random.Random(f'{seed}:route:{family}:{k}')
     r_ = rr.random()
-    route = 'run' if r_ < 0.3 else ('global' if r_ < 0.42 else 'stepwise')
+    route = 'run' if r_ < 0.3 else ('global' if r_ < 0.4 else ('full_over_poisoned' if r_ < 0.5 else 'stepwise'))
     if rr.random() < 0.12:
         prms = scenes.numpy_typed(prms, rr)          # parameter values as NumPy scalars
         meta['numpy_typed_prms'] = True
@@ -385,14 +405,24 @@ def _work(args):
     elif family in ('synth', 'chain', 'multi', 'bundle', 'drift', 'interleave', 'exact') and rr.random() < 0.12:
         fuzz = f'{seed}:{family}:{k}+cluster'            # distorted clustering answers (merged / split / renumbered sets)
         meta['kernel_fuzz'] = True
+    frame = None
+    if rr.random() < 0.12:
+        # the same table in a spelling the checker has to normalise (non-str ceilometer ids, other dtypes, extra column ...)
+        frame, rows, how_, ren = scenes.frame_variant(rr, rows)
+        if ren and prms.get('EXCLUDE_FOR_BASE_HEIGHT_CALC'):
+            prms = dict(prms, EXCLUDE_FOR_BASE_HEIGHT_CALC=[ren.get(c, c) for c in prms['EXCLUDE_FOR_BASE_HEIGHT_CALC']])
+        if index is not None:
+            frame.index = index
+        meta['frame_variant'] = how_
     try:
-        obs = scenes.run_scene(rows, prms, index=index, route=route, kernel_fuzz=fuzz)
+        obs = scenes.run_scene(rows, prms, index=index, route=route, kernel_fuzz=fuzz, frame=frame)
     except Exception as e:
         return {'meta': meta, 'harness_error': f'{type(e).__name__}: {e}'}
-    out = {'meta': meta, 'exc': obs['exc'], 'stage': obs['stage'], 'exc_msg': obs.get('exc_msg'),
+    out = {'meta': meta, 'exc': obs['exc'], 'stage': obs['stage'], 'exc_msg': obs.get('exc_msg'), 'eff_mismatch': obs.get('eff_mismatch'),
            'stats': dict(scenes.scene_stats(obs), **{'index_' + ikind: 1, 'route_' + route: 1, 'numpy_typed_prms': int(bool(meta.get('numpy_typed_prms'))),
                                                        'mixture_answers_distorted': int(fuzz is not None and not fuzz.endswith('+cluster')),
-                                                       'clustering_answers_distorted': int(fuzz is not None and fuzz.endswith('+cluster'))}), 'req': None, 'missing': obs['trace'].missing,
+                                                       'clustering_answers_distorted': int(fuzz is not None and fuzz.endswith('+cluster')),
+                                                       'frame_variant_' + str(meta.get('frame_variant')): 1}), 'req': None, 'missing': obs['trace'].missing,
            'digest': hashlib.sha1(repr((rows, sorted(prms.items(), key=str))).encode()).hexdigest()[:16],
            'nrows': len(rows), 'prms': prms}
     if not obs['exc']:
@@ -446,6 +476,9 @@ def run_pipeline(chk, prop, n_scenes, families=FAMILIES, crash_is_violation=Fals
                          'messages': res.get('msgs'), 'raised': res['exc']} if task[1] < 1 else None)
         if res['missing']:
             chk.mismatch('wrapper targets missing', str(res['missing']), replay)
+        if res.get('eff_mismatch'):
+            chk.mismatch('chunk.prms = the parameters that were requested (global at construction updated with the per-call values)',
+                         f"route {res['meta'].get('route')}: differs in {res['eff_mismatch']}", replay)
         if res['exc'] and res['meta'].get('kernel_fuzz'):
             # distorted (but well-shaped) mixture answers: the model is total for every such answer, so an exception of
             # the implementation is a disagreement with the model - not, by itself, a crash on valid input
